@@ -1,12 +1,12 @@
 SPECIFICATION Spec
 CONSTANTS
-  BaseIds = {1, 2, 3, 4, 5, 6, 7, 8, 9, 10, 11, 12, 13, 14, 15, 16}
+  BaseIds = {1, 2, 3, 5, 7, 12}
   Toks = {"-q", "--quiet", "-v", "-vv", "-vvv", "--ansi", "--no-ansi", "-n", "--no-interaction", "-h", "--help", "-V", "--version"}
   MaxSw = 2
-  LitToks = {"-q", "--help", "-vvv"}
+  LitToks = {"-q", "-h"}
   MaxLit = 1
-  Behs = {"ok", "code"}
-  Streams = {"none", "both", "out"}
+  Behs = {"raise"}
+  Streams = {"none", "out"}
 INVARIANT H_inscope
 INVARIANT P_quiet
 INVARIANT P_verbosity
